@@ -879,6 +879,10 @@ func stxBodyCounted(pr *prover, hdr *ssa.Call, n ssa.Value) (bool, string) {
 				return false, "the WriteByte after the STX header is not executed on every iteration of its loop"
 			}
 		}
+		// ip_h1r3.go: the bottom-tested form (for range n) counts as well; its own reason wins when it has one
+		if ok, why := h1RotatedCount(pr, inner, n); ok || why != "" {
+			return ok, why
+		}
 		for b := range inner.body {
 			for _, s := range b.Succs {
 				if !inner.body[s] && b != inner.header && !regionExits(s) {
